@@ -497,6 +497,12 @@ def gen_program(rng, case, focus=None, allow_infeasible=True):
             o = cur[t]
             solv = rng.choice(liqs)
             base = rng.choice(['L', 'L', 'g', 'mol'])
+            if rng.random() < 0.2:
+                # an enzyme or a solid as the filler (a target in a unit that measures it)
+                others = [s_ for s_ in subs if not s_.is_liquid() and R.per(s_, base) > 0 and R.per(s_, 'L') > 0]
+                if others:
+                    solv = rng.choice(others)
+                    M.bucket('C19/recipe/fill_to/' + ('enzyme' if solv.is_enzyme() else 'solid') + '_filler')
             if is_plate(o):
                 # recipe fill_to on a *part* of a plate is the recorded finding KF05 (it fills the whole plate):
                 # random programs use the whole plate; parts are exercised by the directed witnesses
@@ -1620,6 +1626,29 @@ def check_c19_steps(prog, pdesc, rs, r, res, ledger, objects, case):
             what = st['what']
             if t not in text or (hasattr(what, 'name') and what.name not in text):
                 bad = 'names'
+            elif is_plate(res[t]):
+                # the step says from where: a step on a part of a plate names that part, not the plate (which would say that
+                # every well was stripped)
+                pl_ = res[t]
+                rows_, cols_ = list(pl_.row_names), list(pl_.column_names)
+                ref = st['dst']
+                everything = [(i_, j_) for i_ in range(len(rows_)) for j_ in range(len(cols_))]
+                if ref[1] is None:
+                    want_ = everything
+                elif isinstance(ref[1], list):
+                    want_ = None
+                else:
+                    want_ = ref[1].idx if isinstance(ref[1], SubSel) else R.ref_address(rows_, cols_, ref[1])[0]
+                if want_ is not None:
+                    got_ = named_region(text, t, rows_, cols_)
+                    M.count('INSTR.recipe_step_region')
+                    if got_ is None:
+                        got_ = everything            # the bare plate name: the whole plate
+                    if sorted(set(got_)) != sorted(set(want_)):
+                        bad = 'region'
+                        M.bucket('C19/recipe/region/bad')
+                    else:
+                        M.bucket('C19/recipe/region/ok' + ('/remove_on_part' if ref[1] is not None and len(set(want_)) < len(everything) else ''))
         elif op == 'create_container':
             if st['name'] not in text:
                 bad = 'names'
